@@ -1228,7 +1228,15 @@ impl VM {
 
     fn mul(&self, left: &Value, right: &Value, pos: &Position) -> Result<Primitive, Error> {
         Ok(match (left, right) {
-            (P(Int(i)), P(Int(ii))) => Int(i * ii),
+            (P(Int(i)), P(Int(ii))) => match i.checked_mul(*ii) {
+                Some(v) => Int(v),
+                None => {
+                    return Err(Error::new(
+                        format!("Integer overflow in {} * {}", i, ii).into(),
+                        pos.clone(),
+                    ))
+                }
+            },
             (P(Float(f)), P(Float(ff))) => Float(f * ff),
             _ => {
                 return Err(Error::new(
@@ -1241,7 +1249,15 @@ impl VM {
 
     fn div(&self, left: &Value, right: &Value, pos: &Position) -> Result<Primitive, Error> {
         Ok(match (left, right) {
-            (P(Int(i)), P(Int(ii))) => Int(i / ii),
+            (P(Int(i)), P(Int(ii))) => match i.checked_div(*ii) {
+                Some(v) => Int(v),
+                None => {
+                    return Err(Error::new(
+                        format!("Division by zero or integer overflow in {} / {}", i, ii).into(),
+                        pos.clone(),
+                    ))
+                }
+            },
             (P(Float(f)), P(Float(ff))) => Float(f / ff),
             _ => {
                 return Err(Error::new(
@@ -1254,7 +1270,15 @@ impl VM {
 
     fn sub(&self, left: &Value, right: &Value, pos: &Position) -> Result<Primitive, Error> {
         Ok(match (left, right) {
-            (P(Int(i)), Value::P(Int(ii))) => Int(i - ii),
+            (P(Int(i)), Value::P(Int(ii))) => match i.checked_sub(*ii) {
+                Some(v) => Int(v),
+                None => {
+                    return Err(Error::new(
+                        format!("Integer overflow in {} - {}", i, ii).into(),
+                        pos.clone(),
+                    ))
+                }
+            },
             (P(Float(f)), Value::P(Float(ff))) => Float(f - ff),
             _ => {
                 return Err(Error::new(
@@ -1267,7 +1291,17 @@ impl VM {
 
     fn modulus(&self, left: &Value, right: &Value, pos: &Position) -> Result<Primitive, Error> {
         Ok(match (left, right) {
-            (P(Int(i)), Value::P(Int(ii))) => Int(i % ii),
+            (P(Int(i)), Value::P(Int(ii))) => match i.checked_rem(*ii) {
+                Some(v) => Int(v),
+                // i64::MIN %% -1 is 0; only the intermediate division overflows.
+                None if *ii == -1 => Int(0),
+                None => {
+                    return Err(Error::new(
+                        format!("Modulus by zero in {} %% {}", i, ii).into(),
+                        pos.clone(),
+                    ))
+                }
+            },
             (P(Float(f)), Value::P(Float(ff))) => Float(f % ff),
             _ => {
                 return Err(Error::new(
@@ -1280,7 +1314,15 @@ impl VM {
 
     fn add(&self, left: &Value, right: &Value, pos: &Position) -> Result<Value, Error> {
         Ok(match (left, right) {
-            (P(Int(i)), Value::P(Int(ii))) => P(Int(i + ii)),
+            (P(Int(i)), Value::P(Int(ii))) => match i.checked_add(*ii) {
+                Some(v) => P(Int(v)),
+                None => {
+                    return Err(Error::new(
+                        format!("Integer overflow in {} + {}", i, ii).into(),
+                        pos.clone(),
+                    ))
+                }
+            },
             (P(Float(f)), Value::P(Float(ff))) => P(Float(f + ff)),
             (P(Str(s)), Value::P(Str(ss))) => {
                 let mut ns = String::new();
